@@ -27,7 +27,7 @@ import (
 var embeddedConfigLogs = append([]byte{}, omniwitness.ConfigLogs...)
 
 var c17Files = []string{"logs.yaml", "logs_test.yaml"}
-var c17Nets = []string{"drop", "stall", "garbage:7", "status:500", "empty"}
+var c17Nets = []string{"drop", "stall", "garbage:7", "status:500", "empty", "status:404", "status:403"}
 
 func c17Config(file string) ([]byte, error) {
 	if file == "logs.yaml" {
@@ -44,7 +44,7 @@ func init() {
 	register(&Scenario{
 		Prop:  "C17",
 		Level: "exploration",
-		Rule:  "finite: for each of the two shipped files (logs.yaml as embedded in the build, logs_test.yaml from the working tree) and each of 5 hostile networks (every host down, stalled past the timeout, serving garbage, 500, empty bodies) the real omniwitness.Main is booted in a synctest bubble with polling and the distributor enabled and run for 10 simulated minutes: it must not return or panic, and every entry with a feeder must issue at least one request to its configured host with the path its feeder type starts from; and, through the same loaders Main uses: every key parses, no two IDs collide, feeder types are known, URLs are well-formed with a supported scheme, rekor URLs carry treeID, the witness map and the feeder list name the same IDs. evaluations = entries x networks; every entry is covered in each run (exhaustive over entries); non-trivial = an entry with a feeder; distinct = (file, entry origin)",
+		Rule:  "finite: for each of the two shipped files (logs.yaml as embedded in the build, logs_test.yaml from the working tree) and each of 7 hostile networks (every host down, stalled past the timeout, serving garbage, 500, empty bodies, 404, 403) the real omniwitness.Main is booted in a synctest bubble with polling and the distributor enabled and run for 10 simulated minutes: it must not return or panic, and every entry with a feeder must issue at least one request to its configured host with the path its feeder type starts from; and, through the same loaders Main uses: every key parses, no two IDs collide, feeder types are known, URLs are well-formed with a supported scheme, rekor URLs carry treeID, the witness map and the feeder list name the same IDs. evaluations = entries x networks; every entry is covered in each run (exhaustive over entries); non-trivial = an entry with a feeder; distinct = (file, entry origin)",
 		Total: func(tier string) uint64 { return uint64(len(c17Files) * len(c17Nets)) },
 		Gen: func(r *Rng, tier string, n uint64) *Plan {
 			p := &Plan{Scenario: "config"}
